@@ -212,6 +212,18 @@ def shutdown_pool():
         _POOL = None
 
 
+def _call(fn, task, index):
+    """Every second task runs with the library's loggers switched to DEBUG (records are created and dropped): how
+    verbose a user has made the logging is part of the environment, and the behaviour must not depend on it."""
+    import logging
+    lg = logging.getLogger("sedpack")
+    if not any(isinstance(h, logging.NullHandler) for h in lg.handlers):
+        lg.addHandler(logging.NullHandler())
+    lg.propagate = False
+    lg.setLevel(logging.DEBUG if index % 2 else logging.WARNING)
+    return fn(task)
+
+
 class ProcessFrozen(Exception):
     """A worker process stopped making progress altogether (not even its own watchdog threads ran)."""
 
@@ -232,7 +244,7 @@ def run_histories(tasks: list[dict], fn=run_history, freeze_limit: float = FREEZ
     result for that task is {"frozen": True, ...} (callers report it as a hang), otherwise its result is used."""
     import time as _time
     global _POOL  # pylint: disable=global-statement
-    futs = [pool().submit(fn, t) for t in tasks]
+    futs = [pool().submit(_call, fn, t, i) for i, t in enumerate(tasks)]
     outs: list = [None] * len(tasks)
     seen_running: dict[int, float] = {}
     pending = set(range(len(tasks)))
@@ -268,7 +280,7 @@ def run_histories(tasks: list[dict], fn=run_history, freeze_limit: float = FREEZ
             continue
         shutdown_pool()
         _POOL = cf.ProcessPoolExecutor(max_workers=1, mp_context=mp.get_context("spawn"), initializer=_init_worker)
-        f = _POOL.submit(fn, tasks[i])
+        f = _POOL.submit(_call, fn, tasks[i], i)
         try:
             outs[i] = f.result(timeout=freeze_limit if i in seen_running else 4 * freeze_limit)
         except (cf.TimeoutError, cf.process.BrokenProcessPool):
